@@ -63,6 +63,13 @@ class VwSlotsPosSub(VwSlotsPos):
         super().__init__(*args)
         self.extra = "e"
 
+class VwSlotsOne(VwSlotsPos):
+    """a lone string names a single slot"""
+    __slots__ = "single"
+    def __init__(self, *args):
+        super().__init__(*args)
+        self.single = 5
+
 class VwPosSlots:
     """slots-only; the constructor mixes a positional-only parameter with ordinary ones"""
     __slots__ = ("ident", "name", "size", "_p")
@@ -125,11 +132,11 @@ class VwSame:
         self.y = b
 '''
 
-CLASSES = ["VwDC", "VwNT", "VwNT1", "VwPlain", "VwPlainCV", "VwSlots", "VwSlotsPos", "VwSlotsPos", "VwPosSlots", "VwPosVars", "VwVars", "VwVarsDyn", "VwVarsDyn", "vw0same", "vw1same"]
+CLASSES = ["VwDC", "VwNT", "VwNT1", "VwPlain", "VwPlainCV", "VwSlots", "VwSlotsPos", "VwSlotsPos", "VwSlotsPosSub", "VwSlotsOne", "VwPosSlots", "VwPosVars", "VwVars", "VwVarsDyn", "VwVarsDyn", "vw0same", "vw1same"]
 # expected public (field, attribute) names per class, in order
 PUBLIC = {
     "VwDC": ["a", "b"], "VwNT": ["first", "second"], "VwNT1": ["only"], "VwPlain": ["a", "b"], "VwPlainCV": ["a"],
-    "VwSlots": ["a", "b"], "VwSlotsPos": ["x", "y", "zed", "w", "kappa"], "VwPosSlots": ["ident", "name", "size"], "VwPosVars": ["ident", "name", "size"], "VwVars": ["a", "b"], "vw0same": ["a"], "vw1same": ["z", "y"],
+    "VwSlots": ["a", "b"], "VwSlotsPos": ["x", "y", "zed", "w", "kappa"], "VwSlotsPosSub": ["x", "y", "zed", "w", "kappa", "extra"], "VwSlotsOne": ["x", "y", "zed", "w", "kappa", "single"], "VwPosSlots": ["ident", "name", "size"], "VwPosVars": ["ident", "name", "size"], "VwVars": ["a", "b"], "vw0same": ["a"], "vw1same": ["z", "y"],
 }
 
 
@@ -299,8 +306,8 @@ class C18(PropBase):
             else:
                 names = PUBLIC[cname]
                 vals = {"a": a, "b": b, "first": a, "second": b, "only": a, "z": a, "y": b}
-                if cname == "VwSlotsPos":
-                    vals = {"x": a, "y": b, "zed": 3, "w": "w", "kappa": None}
+                if cname in ("VwSlotsPos", "VwSlotsPosSub", "VwSlotsOne"):
+                    vals = {"x": a, "y": b, "zed": 3, "w": "w", "kappa": None, "extra": "e", "single": 5}
                 if cname in ("VwPosSlots", "VwPosVars"):
                     vals = {"ident": a, "name": b, "size": 0}
                 items = [(nm, vals[nm]) for nm in names]
